@@ -111,6 +111,45 @@ static void run (int n, char **t)
     { double u, v; cd (c, a); cdpe_get_d (&u, &v, c); printf ("%s %s\n", hx (u), hx (v)); }
   else if (IS ("cget_x") && n == 4)
     { cplx_t z; cd (c, a); cdpe_get_x (z, c); printf ("%s %s\n", hx (cplx_Re (z)), hx (cplx_Im (z))); }
+  /* ---- the remaining public functions of mt.h (aliases, accessors, structural operations) ---- */
+  else if (IS ("d") && n == 1) { rdpe_d (r, dbl (a[0])); outr (r); }
+  else if (IS ("2dl") && n == 2) { rdpe_2dl (r, dbl (a[0]), lng (a[1])); outr (r); }
+  else if (IS ("get_2dl") && n == 2) { double m; long l; rd (x, a); rdpe_get_2dl (&m, &l, x); printf ("%s %ld\n", hx (m), l); }
+  else if (IS ("set") && n == 2) { rd (x, a); rdpe_set (r, x); outr (r); }
+  else if (IS ("clear") && n == 2) { rd (r, a); rdpe_clear (r); outr (r); }
+  else if (IS ("swap") && n == 4) { rd (x, a); rd (y, a + 2); rdpe_swap (x, y); printf ("%s %ld %s %ld\n", hx (rdpe_Mnt (x)), rdpe_Esp (x), hx (rdpe_Mnt (y)), rdpe_Esp (y)); }
+  else if (IS ("add_d") && n == 3) { rd (x, a); rdpe_add_d (r, x, dbl (a[2])); outr (r); }
+  else if (IS ("sub_d") && n == 3) { rd (x, a); rdpe_sub_d (r, x, dbl (a[2])); outr (r); }
+  else if (IS ("add_eq_d") && n == 3) { rd (r, a); rdpe_add_eq_d (r, dbl (a[2])); outr (r); }
+  else if (IS ("sub_eq_d") && n == 3) { rd (r, a); rdpe_sub_eq_d (r, dbl (a[2])); outr (r); }
+  else if (IS ("cd") && n == 2) { cdpe_d (rc, dbl (a[0]), dbl (a[1])); outc (rc); }
+  else if (IS ("cx") && n == 2) { cplx_t z; cplx_set_d (z, dbl (a[0]), dbl (a[1])); cdpe_x (rc, z); outc (rc); }
+  else if (IS ("cset_x") && n == 2) { cplx_t z; cplx_set_d (z, dbl (a[0]), dbl (a[1])); cdpe_set_x (rc, z); outc (rc); }
+  else if (IS ("ce") && n == 4) { rd (x, a); rd (y, a + 2); cdpe_e (rc, x, y); outc (rc); }
+  else if (IS ("cset_e") && n == 4) { rd (x, a); rd (y, a + 2); cdpe_set_e (rc, x, y); outc (rc); }
+  else if (IS ("cget_e") && n == 4) { cd (c, a); cdpe_get_e (x, y, c); printf ("%s %ld %s %ld\n", hx (rdpe_Mnt (x)), rdpe_Esp (x), hx (rdpe_Mnt (y)), rdpe_Esp (y)); }
+  else if (IS ("c2dl") && n == 4) { cdpe_2dl (rc, dbl (a[0]), lng (a[1]), dbl (a[2]), lng (a[3])); outc (rc); }
+  else if (IS ("cset_2dl") && n == 4) { cdpe_set_2dl (rc, dbl (a[0]), lng (a[1]), dbl (a[2]), lng (a[3])); outc (rc); }
+  else if (IS ("cset") && n == 4) { cd (c, a); cdpe_set (rc, c); outc (rc); }
+  else if (IS ("cclear") && n == 4) { cd (rc, a); cdpe_clear (rc); outc (rc); }
+  else if (IS ("cswap") && n == 8) { cd (c, a); cd (c2, a + 4); cdpe_swap (c, c2); outc (c); }
+#define CUNF(name, fn) else if (IS (name) && n == 4) { cd (c, a); fn (rc, c); outc (rc); }
+#define CUNEQ(name, fn) else if (IS (name) && n == 4) { cd (rc, a); fn (rc); outc (rc); }
+  CUNF ("cneg", cdpe_neg) CUNF ("ccon", cdpe_con) CUNF ("crot", cdpe_rot) CUNF ("cflip", cdpe_flip)
+  CUNEQ ("cneg_eq", cdpe_neg_eq) CUNEQ ("ccon_eq", cdpe_con_eq) CUNEQ ("crot_eq", cdpe_rot_eq) CUNEQ ("cflip_eq", cdpe_flip_eq)
+#define CBINEQ(name, fn) else if (IS (name) && n == 8) { cd (rc, a); cd (c2, a + 4); fn (rc, c2); outc (rc); }
+  CBINEQ ("cadd_eq", cdpe_add_eq) CBINEQ ("csub_eq", cdpe_sub_eq) CBINEQ ("cdiv_eq", cdpe_div_eq)
+  else if (IS ("cmul_eq_e") && n == 6) { cd (rc, a); rd (x, a + 4); cdpe_mul_eq_e (rc, x); outc (rc); }
+  else if (IS ("cdiv_eq_e") && n == 6) { cd (rc, a); rd (x, a + 4); cdpe_div_eq_e (rc, x); outc (rc); }
+  else if (IS ("cmul_eq_d") && n == 5) { cd (rc, a); cdpe_mul_eq_d (rc, dbl (a[4])); outc (rc); }
+  else if (IS ("cdiv_eq_d") && n == 5) { cd (rc, a); cdpe_div_eq_d (rc, dbl (a[4])); outc (rc); }
+  else if (IS ("cmul_x") && n == 6) { cplx_t z; cd (c, a); cplx_set_d (z, dbl (a[4]), dbl (a[5])); cdpe_mul_x (rc, c, z); outc (rc); }
+  else if (IS ("cmul_eq_x") && n == 6) { cplx_t z; cd (rc, a); cplx_set_d (z, dbl (a[4]), dbl (a[5])); cdpe_mul_eq_x (rc, z); outc (rc); }
+  else if (IS ("cpow_eq_si") && n == 5)
+    { long i = lng (a[4]); cd (rc, a); if (i == LONG_MIN) { printf ("SKIP\n"); return; } cdpe_pow_eq_si (rc, i); outc (rc); }
+  else if (IS ("ceq_zero") && n == 4) { cd (c, a); printf ("%d\n", cdpe_eq_zero (c)); }
+  else if (IS ("ceq") && n == 8) { cd (c, a); cd (c2, a + 4); printf ("%d\n", cdpe_eq (c, c2)); }
+  else if (IS ("cne") && n == 8) { cd (c, a); cd (c2, a + 4); printf ("%d\n", cdpe_ne (c, c2)); }
   else printf ("ERR\n");
 }
 
